@@ -18,6 +18,10 @@ def main():
     gasc = dict(MaxJ="= 4", MaxE="= 4", MaxN="= 3", MaxPV="= 0", Kinds="<- KindsGas", NKinds="<- NKindsCore", TogJ="= FALSE")
     e3 = c01.generic_part(V, core.tier(), core.seed() + 41, checks=("C03",), emit=gasc, fluid="lgas", heights=True)
     extra.update({k + "_compressor_nets": v for k, v in e3.items()})
+    # nets dense in feeders: up to four external grids, several on one junction in every table order (mean of their pressures)
+    feed = dict(MaxJ="= 3", MaxE="= 2", MaxN="= 4", MaxPV="= 0", Kinds="<- KindsPipe", NKinds="<- NKindsFeed", TogJ="= FALSE")
+    e4 = c01.generic_part(V, core.tier(), core.seed() + 53, checks=("C03",), emit=feed, fluid="water")
+    extra.update({k + "_feeder_nets": v for k, v in e4.items()})
     rc1 = V.finish()
     rc2 = ref.run_check("C03", RULE, extra_cov=extra, prior_violations=len(V.violations))
     return 1 if (rc1 or rc2) else 0
